@@ -145,7 +145,7 @@ fn check_case(case: &Value, stats: &mut Stats) -> CheckResult {
 pub fn property() -> Property {
     Property {
         id: "C10",
-        rule: "Valid positions (19 sources). (1) every semilegal move: Display text equals coordinate notation from the reference, and \
+        rule: "Valid positions (20 sources). (1) every semilegal move: Display text equals coordinate notation from the reference, and \
                from_uci / from_uci_semilegal / uci::Move::from_str return exactly that move including its kind. (2) all 20,481 strings \
                [a-h][1-8][a-h][1-8][nbrq]? + 0000 per position: from_uci_semilegal accepts <=> a reference pseudo-legal move has that \
                (source, destination, promotion), and returns it; from_uci_legal likewise with the legal set; make::Uci plays it <=> legal. \
